@@ -182,21 +182,28 @@ def copyBack (p arr : Array Elem) (right idx : Nat) : Except Err (Array Elem) :=
   else .ok p
 termination_by right + 1 - idx
 
+/-- the three filling loops of the merge step: merge, then the rest of the left run,
+    then the rest of the right run -/
+def mergeFill (p arr : Array Elem) (center right l r idx : Nat) : Except Err (Array Elem) :=
+  match mergeLoop p arr center right l r idx with
+  | .error e => .error e
+  | .ok (arr1, l', r', idx') =>
+    match copyTail p arr1 center l' idx' with
+    | .error e => .error e
+    | .ok (arr2, idx2) =>
+      match copyTail p arr2 right r' idx2 with
+      | .error e => .error e
+      | .ok (arr3, _) => .ok arr3
+
 /-- the merge step of `muggle_merge_sort_recursive` -/
 def mergeStep (p arr : Array Elem) (left center right : Nat) :
     Except Err (Array Elem × Array Elem) :=
-  match mergeLoop p arr center right left (center + 1) left with
+  match mergeFill p arr center right left (center + 1) left with
   | .error e => .error e
-  | .ok (arr1, l, r, idx) =>
-    match copyTail p arr1 center l idx with
+  | .ok arr3 =>
+    match copyBack p arr3 right left with
     | .error e => .error e
-    | .ok (arr2, idx2) =>
-      match copyTail p arr2 right r idx2 with
-      | .error e => .error e
-      | .ok (arr3, _) =>
-        match copyBack p arr3 right left with
-        | .error e => .error e
-        | .ok p' => .ok (p', arr3)
+    | .ok p' => .ok (p', arr3)
 
 /-- `muggle_merge_sort_recursive` -/
 def mergeRec (p arr : Array Elem) (left right : Nat) : Except Err (Array Elem × Array Elem) :=
